@@ -224,6 +224,7 @@ class Policy:
     try_mode = "fork"            # "fork" | "ok_only"
     clone_identity = True
     record_calls = True
+    std_models = True
 
     def inline(self, fn, args, interp, path):
         """Return True to inline a crate-local callee."""
@@ -692,6 +693,10 @@ class Interp:
             return self._finish_call(path, frame, t, self._snap(path, args[0]))
         if name in ("std::hint::must_use", "std::boxed::Box::<T>::new"):
             return self._finish_call(path, frame, t, args[0])
+        if pol.std_models and args:
+            sm = self._std_model(name, [self._snap(path, a) for a in args])
+            if sm is not None:
+                return self._finish_call(path, frame, t, sm)
         body = self.callee_body(fn)
         if body is not None and len(path.frames) < pol.max_depth and pol.inline(fn, args, self, path):
             if t["target"] is None:
@@ -713,6 +718,39 @@ class Interp:
                     tgt = fr.locals.get(a.local, Unknown("uninit"))
                     fr.locals[a.local] = self._write_into(path, fr, tgt, list(a.proj), newv)
         return self._finish_call(path, frame, t, res)
+
+    def _std_model(self, name, a):
+        """Facts about std's Option/Result combinators when the receiver's variant is known."""
+        r = a[0]
+        if not isinstance(r, Variant) or r.variant not in ("Some", "None", "Ok", "Err"):
+            return None
+        OPT, RES = "std::option::Option", "std::result::Result"
+        x = r.fields.get("0", Tup([]))
+        if name.startswith("std::option::Option::<T>::"):
+            m = name.rsplit("::", 1)[-1]
+            some = r.variant == "Some"
+            if m in ("ok_or_else", "ok_or"):
+                return Variant(RES, "Ok", {"0": x}) if some else Variant(RES, "Err", {"0": App("err_from:" + m, a[1:])})
+            if m in ("unwrap", "expect") and some:
+                return x
+            if m == "is_some":
+                return Const("bool", 1 if some else 0)
+            if m == "is_none":
+                return Const("bool", 0 if some else 1)
+            if m in ("unwrap_or", "unwrap_or_default", "unwrap_or_else") and some:
+                return x
+        if name.startswith("std::result::Result::<T, E>::"):
+            m = name.rsplit("::", 1)[-1]
+            ok = r.variant == "Ok"
+            if m in ("unwrap", "expect") and ok:
+                return x
+            if m == "is_ok":
+                return Const("bool", 1 if ok else 0)
+            if m == "is_err":
+                return Const("bool", 0 if ok else 1)
+            if m == "ok":
+                return Variant(OPT, "Some", {"0": x}) if ok else Variant(OPT, "None", {})
+        return None
 
     def _snap(self, path, v):
         """Value snapshot: references are replaced by what they point to."""
